@@ -750,15 +750,11 @@ def corr_symbolic(run):
         h, b = dg
         if b[0] == 0 and h[5] != len(b[3]):
             # a datagram whose sealed header announces a length other than the payload's: only a key
-            # holder could make one and Packet.to_bytes never does.  Too short: both refuse (compared).
-            # Too long by <= 16: Packet.from_bytes slices past the end and accepts it, Conn.open_dgram
-            # refuses it — a gap of the frozen model outside anything a sender produces; `authentic`
-            # deliberately does not mention the length so the theorems do not depend on it.
+            # holder could make one and Packet.to_bytes never does.  Too short: both refuse.  Too long by
+            # <= 16: Packet.from_bytes slices past the end and accepts it, and so does Conn.open_dgram
+            # (the model follows the slice); both are compared.  `authentic` does not mention the length.
             if h[5] > len(b[3]):
                 gap += 1
-                if not (impl[i][1][0] == 0 and model[i][1][0] == 1):
-                    run.notes.append("length-field gap behaves differently than recorded: %r %r" % (impl[i], model[i]))
-                continue
             impl[i][0] = model[i][0] = -1       # symbolic 'authentic' says nothing about a too-short slice
         keep.append(i)
     run.compare("recv_auth", [cases[i] for i in keep], [impl[i] for i in keep], [model[i] for i in keep])
